@@ -2,6 +2,7 @@ import Driver.Ops
 import Driver.VMDrv
 import Driver.Json
 import Driver.Sym
+import Driver.Conv
 open Driver
 
 def dispatch (line : String) : String :=
@@ -11,6 +12,7 @@ def dispatch (line : String) : String :=
   | "json" :: args => handleJson args
   | "symops" :: args => handleSymops args
   | "disable" :: args => handleDisable args
+  | "conv" :: args => handleConv args
   | _ => "bad-op"
 
 partial def loop (h : IO.FS.Stream) (out : IO.FS.Stream) : IO Unit := do
